@@ -142,6 +142,27 @@ SearchFails(s, a, ev) ==
               /\ \A i \in 1..Len(ev.res) : ev.res[i].probes <= 2 * ev.res[i].e
               /\ ev.probes <= 2 * n /\ ev.hops <= n)
 
+\* the first `first` results taken with next(), the rest consumed by fold / count / last of the
+\* Iterator trait: together they are the same sequence
+ConsumeOK(exp, ev) ==
+  LET got == Got(ev.res)
+      j   == IF ev.first <= Len(exp) THEN ev.first ELSE Len(exp)
+  IN CASE ev.mode = "fold"  -> got = exp
+       [] ev.mode = "count" -> got = SubSeq(exp, 1, j) /\ ev.rest_n = Len(exp) - j
+       [] OTHER             -> /\ got = SubSeq(exp, 1, j) /\ ev.rest_n = Len(exp) - j
+                               /\ Got(ev.last) = (IF Len(exp) > j THEN <<exp[Len(exp)]>> ELSE <<>>)
+
+ConsumeFails(s, a, ev) ==
+  IF ~MethodOK(a, ev.method) THEN {"search.method_kind_mismatch"} ELSE
+  \* relational properties: internal iteration (fold / count / for_each) yields what the reference
+  \* search of this scenario (same patterns, same haystack; C08: the byte-wise twin) yielded
+  LET key == RefKey(a, ev.method, ev.hay) IN
+  Chk("consume.same_as_reference", RELP, key \in DOMAIN s.seen => ConsumeOK(s.seen[key], ev)) \cup
+  LET exp  == WithVals(a, RunAll(a.aut, ev.method, SymsOf(a, ev.hay), a.var).ms)
+      rp   == {MethodProp(ev.method, a.kind)}
+  IN IF IsBig(a.pats) THEN {} ELSE
+     Chk("consume.equals_model", rp, ConsumeOK(exp, ev))
+
 \* ---------------------------------------------------------------------------
 \* table: the complete transition table of a real automaton
 \* ---------------------------------------------------------------------------
@@ -395,6 +416,10 @@ RoundtripFails(a, ev) ==
   \cup Chk("roundtrip.remainder", {"C09"},
            ev.rest_ok /\ ev.restlen = Len(ev.trail) /\ ev.src_untouched)
   \cup Chk("roundtrip.reserialize", {"C09"}, ev.reser_ok)
+  \* the restored automaton reports the statistics of the original
+  \cup Chk("roundtrip.statistics", {"C09", "C15"},
+           /\ ev.stats[1] = ev.stats[2] /\ ev.stats[3] = ev.stats[4]
+           /\ ev.elements[1] = ev.elements[2])
 
 PairSet(a) == {<<a.pats[i], ValStr(a, i)>> : i \in 1..Len(a.pats)}
 SameFails(a, b, ev) ==
@@ -442,6 +467,26 @@ NextFails(s, a, ir, ev) ==
                  /\ (r.m = <<>> => ev.pulled = AvailOf(ir, ev)))
      \cup Chk("next.linear", {"C13"}, ev.probes <= 2 * Pulled(r.it, ir.syms))
 
+\* internal iteration on a live iterator (fold / for_each / count / last called on the concrete
+\* iterator type): everything that repeated next() calls would still have produced from the
+\* iterator's current state, pending outputs included
+DrainRun(a, ir, ev) ==
+  LET sy == SymsUpTo(ir.syms, AvailOf(ir, ev)) IN
+  RunN(a.aut, ir.it, sy, a.var, (Len(sy) + 1) * (Len(a.aut.outs) + 1) + 1)
+DrainOK(exp, ev) ==
+  CASE ev.mode \in {"fold", "for_each"} -> Got(ev.res) = exp /\ ev.n = Len(exp)
+    [] ev.mode = "count" -> ev.n = Len(exp)
+    [] OTHER -> Got(ev.last) = (IF exp = <<>> THEN <<>> ELSE <<exp[Len(exp)]>>)
+DrainFails(s, a, ir, ev) ==
+  LET exp == WithVals(a, DrainRun(a, ir, ev).ms)
+      key == RefKey(a, ir.method, ir.hay)
+  IN Chk("drain.equals_model", {MethodProp(ir.method, a.kind)}, DrainOK(exp, ev))
+     \cup Chk("drain.same_as_reference", {"C12", "C14"},
+              (key \in DOMAIN s.seen /\ AvailOf(ir, ev) = Len(ir.hay) /\ ir.nm <= Len(s.seen[key])) =>
+                 DrainOK(SubSeq(s.seen[key], ir.nm + 1, Len(s.seen[key])), ev))
+     \cup Chk("drain.lazy", {"C12"},
+              ir.entry \in {"iter", "stream"} => ev.pulled = AvailOf(ir, ev))
+
 \* ---------------------------------------------------------------------------
 \* Guard and effect of each event kind
 \* ---------------------------------------------------------------------------
@@ -455,6 +500,8 @@ Fails(s, ev, r) ==
          IF HasAuto(s, ev.h) THEN TableFails(s, s.autos[ev.h], ev) ELSE {"unknown_handle"}
     [] ev.ev = "search" ->
          IF HasAuto(s, ev.h) THEN SearchFails(s, s.autos[ev.h], ev) ELSE {"unknown_handle"}
+    [] ev.ev = "consume" ->
+         IF HasAuto(s, ev.h) THEN ConsumeFails(s, s.autos[ev.h], ev) ELSE {"unknown_handle"}
     [] ev.ev = "roundtrip" ->
          IF HasAuto(s, ev.h) THEN RoundtripFails(s.autos[ev.h], ev) ELSE {"unknown_handle"}
     [] ev.ev = "same" ->
@@ -473,6 +520,9 @@ Fails(s, ev, r) ==
     [] ev.ev = "next" ->
          IF HasIter(s, ev.it)
          THEN NextFails(s, s.autos[s.iters[ev.it].h], s.iters[ev.it], ev) ELSE {"unknown_iter"}
+    [] ev.ev = "drain" ->
+         IF HasIter(s, ev.it)
+         THEN DrainFails(s, s.autos[s.iters[ev.it].h], s.iters[ev.it], ev) ELSE {"unknown_iter"}
     \* a crash (abort by std's unsafe-precondition checks, panic, hop limit) is never allowed
     [] ev.ev = "crash" -> {"crash"}
     [] OTHER -> {"unknown_event"}
@@ -501,6 +551,8 @@ Eff(s, ev, r) ==
              nc == NextCall(s.autos[ir.h].aut, ir.it, SymsUpTo(ir.syms, AvailOf(ir, ev)), s.autos[ir.h].var)
          IN [s EXCEPT !.iters[ev.it].it = nc.it, !.iters[ev.it].n = @ + 1,
                       !.iters[ev.it].nm = @ + (IF ev.res = <<>> THEN 0 ELSE 1)]
+    \* the iterator was moved into the call: it no longer exists
+    [] ev.ev = "drain" -> [s EXCEPT !.iters = [k \in DOMAIN @ \ {ev.it} |-> @[k]]]
     [] OTHER -> s
 
 \* ---------------------------------------------------------------------------
